@@ -252,7 +252,7 @@ def run(res: C.Result):
     agree = dis = 0
     per = 250
     got = {}
-    lines = [f"Eval vm_compute in ({j}%nat, {it})." for j, it in enumerate(items)]
+    lines = [f"Eval vm_compute in ({j}%Z, {it})." for j, it in enumerate(items)]
     files = ["\n".join(lines[i:i + per]) for i in range(0, len(lines), per)]
     from concurrent.futures import ThreadPoolExecutor
 
@@ -266,7 +266,7 @@ def run(res: C.Result):
         for rc, out, err in ex.map(one, enumerate(files)):
             if rc != 0:
                 res.broken("correspondence:coq-evaluation", err[-1500:])
-            for m in re.finditer(r"=\s*\((\d+)%nat,\s*(.*?)\)\s*:\s", out, re.S):
+            for m in re.finditer(r"=\s*\((\d+)(?:%\w+)?,\s*(.*?)\)\s*:\s", out, re.S):
                 got[int(m.group(1))] = re.sub(r"\s+", " ", m.group(2))
     for j, (k, ci, kind, exp) in enumerate(meta):
         g = got.get(j)
